@@ -1,5 +1,7 @@
 import DelbModel.Model.Nav
 import DelbModel.Lemmas.Nav
+import DelbModel.Model.NavFilter
+import DelbModel.Lemmas.NavFilter
 /-!
 # C05 — All navigation relations describe one and the same ordered tree
 
@@ -77,5 +79,197 @@ theorem c05_traversers (t : PTree) :
 /-- non-vacuity -/
 example : childLocs [⟨1, "a".toList⟩, ⟨2, "b".toList⟩] [(.comment 3 [], [⟨4, "c".toList⟩]), (.pi 5 "t" [], [])]
     = [.inData 0, .inData 1, .elem 0, .inTail 0 0, .elem 1] := by rfl
+
+/-! ## filters: an iterator with filters yields the unfiltered sequence restricted to matching nodes
+
+`p` is the conjunction of all filters an iterator consults (see `Model/NavFilter.lean` for which
+ones each method consults); helper lemmas are in `DelbModel/Lemmas/NavFilter.lean`. -/
+
+/-- `iterate_children(*filter)` yields the matching children in order; `first_child`, `last_child`,
+    `len`, indexed access (from the front and, with a negative index, from the back; `none` is the
+    `IndexError`) and `index` are head, last, length, element and position of that restricted list.
+    A node that does not pass has no index (the loop of `NodeBase.index` runs into `InvalidCodePath`);
+    the index of a node that passes is the number of passing siblings before it, and indexed access
+    with it gives the node back. -/
+theorem c05_filtered_children (p : PTree → Bool) (t : PTree) :
+    childrenF p t = t.kids.filter p ∧
+    firstChildF p t = (t.kids.filter p).head? ∧
+    lastChildF p t = (t.kids.filter p).getLast? ∧
+    lenF p t = (t.kids.filter p).length ∧
+    (∀ i : Nat, getItemF p t (i : Int) = (t.kids.filter p)[i]?) ∧
+    (∀ k : Nat, getItemF p t (-((k + 1 : Nat) : Int)) =
+        if k < (t.kids.filter p).length then (t.kids.filter p)[(t.kids.filter p).length - 1 - k]? else none) ∧
+    (∀ (i : Nat) (n : PTree), t.kids[i]? = some n →
+        indexInF p t i = (if p n then some ((t.kids.take i).filter p).length else none) ∧
+        (p n = true → getItemF p t (((t.kids.take i).filter p).length : Nat) = some n)) := by
+  have hc : childrenF p t = t.kids.filter p := childrenLoopF_eq p t.kids
+  have hlen : lenF p t = (t.kids.filter p).length := by
+    unfold lenF; rw [hc, foldl_enum_len]
+    cases t.kids.filter p <;> simp
+  have hget : ∀ i : Nat, getItemF p t (i : Int) = (t.kids.filter p)[i]? := by
+    intro i
+    unfold getItemF
+    rw [hc, if_neg (by omega), getLoop_eq]
+    simp
+  refine ⟨hc, ?_, ?_, hlen, hget, ?_, ?_⟩
+  · unfold firstChildF; rw [hc]; cases t.kids.filter p <;> rfl
+  · unfold lastChildF; rw [hc, foldl_last]; cases (t.kids.filter p).getLast? <;> rfl
+  · intro k
+    unfold getItemF
+    rw [hc, hlen, if_pos (by omega), getLoop_eq]
+    by_cases hk : k < (t.kids.filter p).length
+    · rw [if_pos hk, if_pos (by omega)]
+      congr 1; omega
+    · rw [if_neg hk, if_neg (by omega)]
+  · intro i n hn
+    refine ⟨?_, ?_⟩
+    · unfold indexInF
+      rw [indexLoop_eq]
+      simp [hn]
+    · intro hp
+      rw [hget]
+      exact filter_getElem?_index p t.kids i n hn hp
+
+/-- `index` of the node at a path: the number of its passing preceding siblings -/
+theorem c05_filtered_index (p : PTree → Bool) (root : PTree) (par : List Nat) (i : Nat) (parent n : PTree)
+    (hpar : getAtP root par = some parent) (hn : parent.kids[i]? = some n) :
+    indexF p root (par ++ [i]) =
+      if p n then some ((precedingSiblings root (par ++ [i])).filter p).length else none := by
+  have h := ((c05_filtered_children p parent).2.2.2.2.2.2 i n hn).1
+  rw [precedingSiblings_snoc root par i parent hpar]
+  simp only [indexF, splitLast_snoc, hpar, h, List.filter_reverse, List.length_reverse]
+
+/-- `iterate_following_siblings(*filter)` yields the matching following siblings;
+    `fetch_following_sibling(*filter)` is the first of them -/
+theorem c05_filtered_following_siblings (p : PTree → Bool) (root : PTree) (path : List Nat) :
+    followingSiblingsF p root path = (followingSiblings root path).filter p ∧
+    fetchFollowingSiblingF p root path = ((followingSiblings root path).filter p).head? ∧
+    fetchFollowingSiblingF p root path = (followingSiblings root path).find? p := by
+  refine ⟨iterateFollowingSiblingsLoop_eq p _ _ (Nat.lt_succ_self _), ?_, ?_⟩
+  · rw [List.head?_filter]; exact fetchFollowingSiblingLoop_find p _
+  · exact fetchFollowingSiblingLoop_find p _
+
+/-- `iterate_preceding_siblings(*filter)` yields the matching preceding siblings (nearest first);
+    the recursive `fetch_preceding_sibling(*filter)` is the first of them -/
+theorem c05_filtered_preceding_siblings (p : PTree → Bool) (root : PTree) (path : List Nat) :
+    precedingSiblingsF p root path = (precedingSiblings root path).filter p ∧
+    fetchPrecedingSiblingF p root path = ((precedingSiblings root path).filter p).head? ∧
+    fetchPrecedingSiblingF p root path = (precedingSiblings root path).find? p := by
+  have h : fetchPrecedingSiblingF p root path = (precedingSiblings root path).find? p := by
+    unfold fetchPrecedingSiblingF
+    rw [fetchPrecedingSiblingRec_eq]; exact fetchFollowingSiblingLoop_find p _
+  refine ⟨iteratePrecedingSiblingsLoop_eq p _ _ (Nat.lt_succ_self _), ?_, h⟩
+  rw [List.head?_filter]; exact h
+
+/-- the sibling pointers the loops pass on are the right ones: what `fetch_following_sibling` /
+    `fetch_preceding_sibling` return for the child at index `i` is a sibling at a larger / smaller
+    index `k`, together with the following / preceding siblings of *that* node, from which the next
+    round of `iterate_*_siblings` continues -/
+theorem c05_filtered_sibling_pointer (p : PTree → Bool) (root : PTree) (par : List Nat) (i : Nat)
+    (parent n : PTree) (l' : List PTree) (hpar : getAtP root par = some parent) :
+    (fetchFollowingSiblingLoop p (followingSiblings root (par ++ [i])) = some (n, l') →
+      ∃ k, i < k ∧ getAtP root (par ++ [k]) = some n ∧ l' = followingSiblings root (par ++ [k])) ∧
+    (fetchPrecedingSiblingRec p (precedingSiblings root (par ++ [i])) = some (n, l') →
+      ∃ k, k < i ∧ getAtP root (par ++ [k]) = some n ∧ l' = precedingSiblings root (par ++ [k])) := by
+  have hget : ∀ k, parent.kids[k]? = some n → getAtP root (par ++ [k]) = some n := by
+    intro k hk
+    rw [getAtP_snoc root par k parent hpar, hk]
+  constructor
+  · intro h
+    rw [followingSiblings_snoc root par i parent hpar] at h
+    obtain ⟨k, hk, hkn, hl⟩ := fetchFollowingSibling_pointer p parent.kids i n l' h
+    exact ⟨k, hk, hget k hkn, by rw [followingSiblings_snoc root par k parent hpar]; exact hl⟩
+  · intro h
+    rw [precedingSiblings_snoc root par i parent hpar] at h
+    obtain ⟨k, hk, hkn, hl⟩ := fetchPrecedingSibling_pointer p parent.kids i n l' h
+    exact ⟨k, hk, hget k hkn, by rw [precedingSiblings_snoc root par k parent hpar]; exact hl⟩
+
+/-- `iterate_descendants(*filter)` yields the matching descendants in document order; the subtree
+    of a tag node that does not pass is searched all the same -/
+theorem c05_filtered_descendants (p : PTree → Bool) (t : PTree) :
+    descendantsF p t = (descendants t).filter p ∧
+    descendantsF p t = (preorderList t.kids).filter p := by
+  have h : descendantsF p t = (descendants t).filter p := descLoopF_eq p _ _ _
+  exact ⟨h, by rw [h, descendants_eq]⟩
+
+/-- `iterate_ancestors(*filter)` yields the ancestors that match the given filters, bottom to top
+    (the default filters are not consulted by this method) -/
+theorem c05_filtered_ancestors (p : PTree → Bool) (root : PTree) (path : List Nat) :
+    ancestorsF p root path = (ancestors root path).filter p := by
+  exact ancestorsRecF_eq p root path path.length
+
+/-- `iterate_following(*filter)` yields the matching nodes of the following axis in document order;
+    `fetch_following(*filter)` is the first of them -/
+theorem c05_filtered_following (p : PTree → Bool) (root : PTree) (path : List Nat) :
+    followingF p root path = (following root path).filter p ∧
+    fetchFollowingF p root path = (following root path).find? p := by
+  have h : followingF p root path = (following root path).filter p := yieldIf_eq p _
+  exact ⟨h, by rw [fetchFollowingF, nextOf_eq, h, List.head?_filter]⟩
+
+/-- `iterate_preceding(*filter)` yields the matching nodes of the preceding axis in reverse document
+    order; `fetch_preceding(*filter)` is the first of them -/
+theorem c05_filtered_preceding (p : PTree → Bool) (root : PTree) (path : List Nat) :
+    precedingF p root path = (preceding root path).filter p ∧
+    fetchPrecedingF p root path = (preceding root path).find? p := by
+  have h : precedingF p root path = (preceding root path).filter p := yieldIf_eq p _
+  exact ⟨h, by rw [fetchPrecedingF, nextOf_eq, h, List.head?_filter]⟩
+
+/-- with filters, the nodes before a node, the node and the nodes after it are the matching part of
+    the document order (for a node that passes itself) -/
+theorem c05_filtered_partition (p : PTree → Bool) (root : PTree) (path : List Nat) (n : PTree)
+    (h : getAtP root path = some n) (hp : p n = true) :
+    (precedingF p root path).reverse ++ n :: followingF p root path = (preorder root).filter p := by
+  rw [(c05_filtered_preceding p root path).1, (c05_filtered_following p root path).1,
+    ← c05_partition root path n h]
+  simp [List.filter_append, List.filter_reverse, hp]
+
+section Examples
+
+/-- `<r><a>1<!--c--></a>2<b><c>3</c></b><?t?></r>` -/
+private def exTree : PTree :=
+  .tag 0 "" "r" [] [
+    .tag 1 "" "a" [] [.text 2 "1".toList, .comment 3 "c".toList],
+    .text 4 "2".toList,
+    .tag 5 "" "b" [] [.tag 6 "" "c" [] [.text 7 "3".toList]],
+    .pi 8 "t" []]
+
+/-- `is_text_node`: hides every tag node, also those with text below them -/
+private def isTextP : PTree → Bool
+  | .text .. => true
+  | _ => false
+
+/-- the default filters of delb: no comments, no processing instructions -/
+private def noCommentPI : PTree → Bool
+  | .comment .. => false
+  | .pi .. => false
+  | _ => true
+
+/-- hidden tag nodes are descended into: the text nodes below `a`, `b` and `c` are found -/
+example : (descendantsF isTextP exTree).map PTree.id = [2, 4, 7] := by rfl
+example : (descendantsF noCommentPI exTree).map PTree.id = [1, 2, 4, 5, 6, 7] := by rfl
+example : (childrenF isTextP exTree).map PTree.id = [4] := by rfl
+example : (firstChildF isTextP exTree).map PTree.id = some 4 ∧ lenF isTextP exTree = 1 := by
+  constructor <;> rfl
+example : (getItemF noCommentPI exTree (-1)).map PTree.id = some 5 ∧
+    (getItemF noCommentPI exTree 3).map PTree.id = none := by constructor <;> rfl
+/-- the index of `b` counts the passing siblings only; the hidden PI has no index -/
+example : indexF PTree.isTag exTree [2] = some 1 ∧ indexF noCommentPI exTree [3] = none := by
+  constructor <;> rfl
+example : (followingSiblingsF PTree.isTag exTree [0]).map PTree.id = [5] ∧
+    (fetchPrecedingSiblingF PTree.isTag exTree [3]).map PTree.id = some 5 ∧
+    (precedingSiblingsF isTextP exTree [3]).map PTree.id = [4] := by
+  refine ⟨?_, ?_, ?_⟩ <;> rfl
+/-- following / preceding of the text `2`: the text below the hidden `b` and `c` is reached -/
+example : (followingF isTextP exTree [1]).map PTree.id = [7] ∧
+    (precedingF isTextP exTree [1]).map PTree.id = [2] ∧
+    (ancestorsF (fun t => t.id != 5) exTree [2, 0, 0]).map PTree.id = [6, 0] := by
+  refine ⟨?_, ?_, ?_⟩ <;> rfl
+/-- `last_descendant` does not restrict the unfiltered answer: under `is_text_node` it stops at the
+    text `2` because it never enters the hidden `b`, while the last matching descendant is `3` -/
+example : (lastDescendantF isTextP 10 exTree).map PTree.id = some 4 ∧
+    ((descendantsF isTextP exTree).getLast?).map PTree.id = some 7 := by
+  constructor <;> rfl
+
+end Examples
 
 end Delb.Nav
